@@ -67,7 +67,7 @@ def check(run):
     pairs = [(a, b) for a in G for b in G]
     if quick:
         must = [(a, b) for a in [0, 1, 2, (P - 1) // 2, (P + 1) // 2, P - 2, P - 1] for b in [0, 1, 2, (P - 1) // 2, (P + 1) // 2, P - 2, P - 1]]
-        pairs = must + rng.sample(pairs, 260)
+        pairs = must + rng.sample(pairs, 1200)
     elif len(pairs) > 60000:
         pairs = rng.sample(pairs, 60000)
     for name in OPS:
@@ -76,7 +76,7 @@ def check(run):
                 continue
             lines.append(f"op {name} {hex(a)} {hex(b)}")
             lines.append(f"opu {name} {hex(a)} {hex(b)}")
-        for _ in range(60 if quick else 2000):
+        for _ in range(300 if quick else 4000):
             a, b = gen.rand_fr(rng, 0.1), gen.rand_fr(rng, 0.1)
             lines.append(f"op {name} {hex(a)} {hex(b)}")
             lines.append(f"opu {name} {hex(a)} {hex(b)}")
